@@ -60,10 +60,10 @@ GROUPS = {
             H("c06_float_sub", ["C06"], bound="all 2^64 x 2^64 bit patterns"),
             H("c06_float_mul", ["C06"], "thorough", 900, True, bound="all 2^64 x 2^64 bit patterns"),
             H("c06_float_div", ["C06"], "thorough", 900, True, bound="all 2^64 x 2^64 bit patterns (attempted)"),
-            H("c06_float_lt", ["C06"], bound="all 2^64 x 2^64 bit patterns"),
-            H("c06_float_lte", ["C06"], bound="all 2^64 x 2^64 bit patterns"),
-            H("c06_float_gt", ["C06"], bound="all 2^64 x 2^64 bit patterns"),
-            H("c06_float_gte", ["C06"], bound="all 2^64 x 2^64 bit patterns"),
+            H("c06_float_lt", ["C06", "C05"], bound="all 2^64 x 2^64 bit patterns"),
+            H("c06_float_lte", ["C06", "C05"], bound="all 2^64 x 2^64 bit patterns"),
+            H("c06_float_gt", ["C06", "C05"], bound="all 2^64 x 2^64 bit patterns"),
+            H("c06_float_gte", ["C06", "C05"], bound="all 2^64 x 2^64 bit patterns"),
             H("c06_float_eq", ["C06"], bound="all 2^64 x 2^64 bit patterns"),
             H("c06_float_neq", ["C06"], bound="all 2^64 x 2^64 bit patterns"),
             H("c06_string_cmp_ascii2", ["C06"], bound="all pairs of ASCII texts of length 0..=2, six comparisons"),
@@ -158,6 +158,86 @@ GROUPS["builtins"] = {
         H("c14_lengte", ["C14"], "thorough", 600, True, bound="any value of the 7 types; text from the literal table (1- to 4-byte code points)"),
         H("c14_string_non_numeric", ["C14"], "thorough", 600, True, bound="null, bool, text, list, function"),
         H("c14_int_of_text", ["C14"], "thorough", 600, True, bound="8 decimal / padded / negative / non-numeric / out-of-range texts"),
+    ],
+}
+
+GC_B = "heap shape and root set fixed by the harness, float payloads: all 2^64 bit patterns; "
+GROUPS["gc"] = {
+    "src": "src/gc.rs",
+    "harness_file": "gc_proofs.rs",
+    "module": "gc::__verif_k",
+    "shims": ["bitvec"],
+    "functions": ["gc.rs: GC::{new,trace,maybe_trace,untrace,run,mark,sweep,destroy} (verbatim)",
+                  "object.rs: Object::{float,string,array,free,free_recursive,as_vec,as_vec_mut,as_ptr,tag,is_heap_allocated}"],
+    "stubs": ["crate bitvec -> 80-line Vec<bool> model with bounds-CHECKED get_unchecked/set_unchecked (overlay [patch.crates-io]; "
+              "that the real crate implements a vector of bits is trusted)"],
+    "harnesses": [
+        H("c03_floats_keep_none", ["C03", "C04"], timeout=300, bound=GC_B + "2 floats, no root"),
+        H("c03_floats_keep_a", ["C03", "C04"], timeout=300, bound=GC_B + "2 floats, first rooted (roots in 2 slices, an immediate among them)"),
+        H("c03_floats_keep_b", ["C03", "C04"], timeout=300, bound=GC_B + "2 floats, second rooted"),
+        H("c03_floats_keep_both", ["C03", "C04"], timeout=300, bound=GC_B + "2 floats, both rooted"),
+        H("c03_list_keeps_its_elements", ["C03", "C04"], timeout=300, bound=GC_B + "list [float, int, text] + loose float; root = list; then no roots"),
+        H("c03_alias_through_two_lists", ["C03"], timeout=300, bound=GC_B + "one float in two lists, one list rooted"),
+        H("c03_cycle_and_nesting", ["C03", "C04"], timeout=300, bound=GC_B + "list containing itself and a nested list"),
+        H("c03_store_into_survivor_then_collect", ["C03"], timeout=300, bound=GC_B + "two collections with a store into the survivor in between"),
+        H("c04_untrace_hands_over", ["C04", "C03"], timeout=300, bound=GC_B + "result graph handed to the caller, later store, two collections, caller frees"),
+        H("c04_adopt_and_release", ["C04"], timeout=300, bound="two collectors, adoption of a foreign float, immediates never adopted"),
+    ],
+}
+
+LX = "first character concrete (enumerated), then "
+GROUPS["lexer"] = {
+    "src": "src/lexer.rs",
+    "harness_file": "lexer_proofs.rs",
+    "module": "lexer::__verif_k",
+    "functions": ["lexer.rs: <Tokenizer as Iterator>::next, Tokenizer::{new,peek,is_eof,bump,offset,read_str,skip_while}, "
+                  "<Token as From<&str>>::from (keyword table), is_whitespace"],
+    "stubs": ["char::is_alphabetic / char::is_alphanumeric -> exact on ASCII; 16-entry table for the non-ASCII characters used; panic outside the table "
+              "(that the Unicode tables of core are right is trusted)",
+              "core::str::slice_error_fail -> panic (a slice at a non-boundary is reported as a failure)"],
+    "harnesses": [
+        H("c08_first_two_char_ops", ["C08", "C05"], bound=LX + "0..=2 symbolic ASCII bytes (every length), 1 symbolic byte already consumed; first in = ! < > & |"),
+        H("c08_first_punct_a", ["C08", "C05"], bound=LX + "2 symbolic ASCII bytes; first in ; , . ( ) { }"),
+        H("c08_first_punct_b", ["C08", "C05"], bound=LX + "2 symbolic ASCII bytes; first in [ ] - + * ^ %"),
+        H("c08_first_illegal_ascii", ["C08", "C05"], bound=LX + "2 symbolic ASCII bytes; first in # $ ' : ? @ \\ ` ~ NUL BEL ESC DEL"),
+        H("c08_first_illegal_nonascii", ["C08", "C05"], bound=LX + "2 symbolic ASCII bytes; first in EURO SIGN, REGIONAL INDICATOR N (4 bytes), NBSP, ARABIC-INDIC 3, SUPERSCRIPT 2"),
+        H("c08_first_digit", ["C08", "C05"], timeout=300, bound=LX + "0..=3 symbolic ASCII bytes (every length); first in 0 5 9"),
+        H("c08_first_digit_k4", ["C08"], "thorough", 900, True, bound=LX + "0..=4 symbolic ASCII bytes; first in 1 8"),
+        H("c08_first_quote", ["C08", "C05"], timeout=300, bound="opening quote, then 0..=4 symbolic ASCII bytes (escapes, closing quote or none)"),
+        H("c08_first_letter_kw_a", ["C08", "C05"], timeout=300, bound=LX + "0..=3 symbolic ASCII bytes; first in a s j (keyword initials)"),
+        H("c08_first_letter_kw_b", ["C08", "C05"], timeout=300, bound=LX + "0..=3 symbolic ASCII bytes; first in n z f v (keyword initials)"),
+        H("c08_first_letter_other", ["C08", "C05"], timeout=300, bound=LX + "0..=3 symbolic ASCII bytes; first in b Z _"),
+        H("c08_first_letter_nonascii", ["C08", "C05"], timeout=300, bound=LX + "0..=3 symbolic ASCII bytes; first in e-acute, pi, OMEGA"),
+        H("c08_first_letter_k4", ["C08"], "thorough", 900, True, bound=LX + "0..=4 symbolic ASCII bytes; first in a x"),
+        H("c08_keyword_long_a", ["C08"], timeout=300, bound="antwoord / antwoor / volgende / volgend + 2 symbolic ASCII bytes"),
+        H("c08_keyword_long_b", ["C08"], timeout=300, bound="functie / functi / zolang / zolan / anders / ander + 2 symbolic ASCII bytes"),
+        H("c08_keyword_short", ["C08"], timeout=300, bound="als stel stop nee ja Als jA + 2 symbolic ASCII bytes"),
+        H("c08_ident_inner", ["C08"], timeout=300, bound="8 two-character identifier starts (digit, underscore, non-ASCII letter / non-letter inside) + 2 symbolic ASCII bytes"),
+        H("c08_number_inner", ["C08"], timeout=300, bound="6 number starts (one / two decimal points, non-ASCII after) + 3 symbolic ASCII bytes"),
+        H("c08_string_inner", ["C08"], timeout=300, bound="7 string starts (escaped quote, escaped backslash, non-ASCII content) + 3 symbolic ASCII bytes"),
+        H("c08_ws_ascii_a", ["C08", "C05"], timeout=300, bound="space/tab/newline x 5 followers + 1 symbolic ASCII byte"),
+        H("c08_ws_ascii_b", ["C08", "C05"], timeout=300, bound="CR/VT/FF x 5 followers + 1 symbolic ASCII byte"),
+        H("c08_ws_unicode_a", ["C08"], timeout=300, bound="U+0085/U+200E/U+200F x 5 followers + 1 symbolic ASCII byte"),
+        H("c08_ws_unicode_b", ["C08"], timeout=300, bound="U+2028/U+2029/mixed run x 5 followers + 1 symbolic ASCII byte"),
+        H("c08_comment_to_eol", ["C08", "C05"], timeout=300, bound="5 comment shapes x 5 followers + 1 symbolic ASCII byte"),
+        H("c08_comment_to_eof", ["C08", "C05"], timeout=300, bound="4 comments ending at the end of the text"),
+        H("c08_comment_symbolic_body", ["C08"], timeout=300, bound="// + 2 symbolic non-newline ASCII bytes + newline + x1"),
+        H("c08_stream_a", ["C08"], timeout=300, bound="4 whole texts (declaration, comparisons, logic) with symbolic letters/digits at marked positions; every token"),
+        H("c08_stream_b", ["C08"], timeout=300, bound="4 whole texts (call/index, string, arithmetic, comment) with symbolic letters/digits; every token"),
+        H("c08_stream_c", ["C08"], timeout=300, bound="3 whole texts (if/else, loop, operators) with symbolic letters/digits; every token"),
+    ],
+}
+
+GROUPS["parser"] = {
+    "src": "src/parser.rs",
+    "harness_file": "parser_proofs.rs",
+    "module": "parser::__verif_k",
+    "functions": ["parser.rs: Parser::parse_string_expression (decoder of the raw text between the quotes), Parser::new / advance on the empty text"],
+    "stubs": ["core::str::slice_error_fail -> panic"],
+    "harnesses": [
+        H("c08_decode_sym3", ["C08"], timeout=400, bound="every raw literal body of 0..=3 characters over { backslash, quote, n, t, a, space } the lexer can hand over"),
+        H("c08_decode_sym4", ["C08"], "thorough", 900, True, bound="every raw literal body of 0..=4 characters over the same alphabet"),
+        H("c08_decode_prefixed", ["C08"], timeout=400, bound="5 concrete starts (two escaped backslashes, escaped backslash then n, escaped quote inside, non-ASCII then tab, unknown escape) + 2 symbolic characters"),
     ],
 }
 
